@@ -77,6 +77,15 @@ def _first_b(cfg):
   return [v for _, v in C.walk(cfg) if isinstance(v, fdl.Buildable)]
 
 
+def _direct_children(c):
+  """The root's Buildable arguments as sub-fixtures (they often share descendants)."""
+  out = {}
+  for k, v in c.__arguments__.items():
+    if isinstance(v, fdl.Buildable) and not any(v is o for o in out.values()):
+      out[f'sub_{k}'] = v
+  return out
+
+
 APIS = {
     'build': lambda c: fdl.build(c),
     'eq': lambda c: c == copy.deepcopy(c),
@@ -99,6 +108,9 @@ APIS = {
     'check_baseline_style': lambda c: baseline_style.check_baseline_style(c),
     'new_codegen': lambda c: new_codegen.new_codegen(c),
     'auto_config_codegen': lambda c: experimental_top_level_api.auto_config_codegen(c),
+    'new_codegen_sub_fixtures': lambda c: new_codegen.new_codegen(c, sub_fixtures=_direct_children(c)),
+    'auto_config_codegen_sub_fixtures': lambda c: experimental_top_level_api.auto_config_codegen(
+        c, sub_fixtures=_direct_children(c)),
     'codegen_dot_syntax': lambda c: legacy_codegen.codegen_dot_syntax(c),
     'select_iter': lambda c: list(selectors.select(c, things.f2, check_nonempty=False)),
     'select_get': lambda c: list(selectors.select(c, things.Base, check_nonempty=False).get('y')),
@@ -129,6 +141,18 @@ APIS = {
 API_NAMES = sorted(APIS)
 
 
+def _clear_tags_on_unset(c):
+  """Input preparation for the code generators (their documented precondition: every tagged
+  argument has a value)."""
+  for b in _first_b(c):
+    for k in list(b.__argument_tags__):
+      if k not in b.__arguments__ and b.__argument_tags__[k]:
+        tagging.clear_tags(b, k)
+
+
+PREP = {name: _clear_tags_on_unset for name in APIS if 'codegen' in name}
+
+
 @st.composite
 def strategy_(draw, tier):
   recipe = draw(dags.dag(
@@ -141,7 +165,7 @@ def strategy_(draw, tier):
     bn = [nd for nd in recipe['nodes'] if nd['k'] == 'B' and nd['fn']['name'] in ('things:f2', 'things:Base')]
     if bn:
       draw(st.sampled_from(bn))['kw']['y'] = {'leaf': LONG}
-  api = draw(st.sampled_from(API_NAMES + ['build'] * 3))
+  api = draw(st.sampled_from(API_NAMES + ['build'] * 3 + ['new_codegen_sub_fixtures'] * 3))
   if api == 'build' and draw(st.booleans()):
     # a callable that modifies its container argument in place, given a Buildable-free container
     nodes = recipe['nodes']
@@ -200,6 +224,8 @@ def _check(case, out):
     out.cls('long_value')
   out.cls('api_' + api)
   out.nontrivial = sharing and has_tags and long_value
+  if api in PREP:
+    PREP[api](root)
   before = C.canon(root)
   ids_before = ident_map(root)
   pins = [v for _, v in C.walk(root)]
